@@ -53,10 +53,15 @@
     [rawbytes_g rdat size m rs] = Reference.RawBytes over an artifact with ReadAt
     [rdat] and Size [size], address mapper [m], ranges [rs]; [gref_rawbytes] /
     [grefs_rawbytes] over artifacts of every kind.
-    - [TxtWF regs]: every register lies in the space, BitSize()/8 is the width of
-      its value and > 0, no two registers claim the same address (neighbours --
-      one starts where the other ends -- are allowed);
-    - [txt_lookup regs off]: the first register whose address range contains off;
+    - [txt_width r]: the width of the value as it is written out (what
+      TXTPublic.ReadAt uses since /repo 9b9036f; BitSize() plays no role);
+    - [TxtApart regs]: no two registers claim the same address (neighbours -- one
+      starts where the other ends -- are allowed); [TxtWF regs]: moreover every
+      register lies in the space and is at least one byte wide;
+    - [txt_space regs a]: the byte the sparse register space holds at address a
+      (of the first register whose address range contains a), if any;
+    - [chained off run]: the registers of [run] follow one another without a gap,
+      the first starts at off; [sum_tw run]: the bytes they occupy;
     - [amd_wf r]: width (BitSize()+7)/8 > 0 = width of the value; [sum_width]:
       the bytes a run of registers occupies; [amd_from regs 0 off]: the values of
       the registers from the one that starts at off on, back to back. *)
@@ -534,47 +539,110 @@ Theorem C11_gref_rawbytes_no_error : forall r, (exists v, gref_rawbytes r = Ok v
 Proof. exact gref_rawbytes_no_err. Qed.
 Print Assumptions C11_gref_rawbytes_no_error.
 
-(** TXTPublic.ReadAt honours the positional-read contract: never more bytes than
-    the buffer holds, the rest of the buffer untouched; whatever it reports as
-    read starts at the address of the first register containing [off] and is a
-    prefix of that register's value. *)
-Theorem C11_txt_readat_positional : forall regs p off rd,
-  txt_readat regs p off = Ok rd ->
+(** TXTPublic.ReadAt always returns and honours the positional-read contract of
+    io.ReaderAt: never more bytes than the buffer holds, everything behind the n
+    bytes reported is untouched, and n < len(p) comes with an error -- a nil
+    error means the WHOLE buffer was filled. *)
+Theorem C11_txt_readat_positional : forall regs p off, exists rd,
+  txt_readat regs p off = Ok rd /\
   0 <= rd_n rd <= zlen p /\ zlen (rd_p rd) = zlen p /\
   skipn (Z.to_nat (rd_n rd)) (rd_p rd) = skipn (Z.to_nat (rd_n rd)) p /\
-  (0 < rd_n rd -> exists r, txt_lookup regs off = Some r /\ g_off r = off /\
-       rd_n rd = Z.min (zlen p) (zlen (g_val r)) /\
-       firstn (Z.to_nat (rd_n rd)) (rd_p rd) = firstn (Z.to_nat (rd_n rd)) (g_val r)).
+  (rd_err rd = 0 -> rd_n rd = zlen p /\ 0 < zlen p).
 Proof. exact txt_readat_positional. Qed.
 Print Assumptions C11_txt_readat_positional.
 
+(** The bytes delivered are always bytes of the sparse register space: byte i of
+    what is reported as read is the byte the space holds at off+i. *)
+Theorem C11_txt_readat_space : forall regs p off rd, TxtApart regs ->
+  txt_readat regs p off = Ok rd ->
+  forall i, 0 <= i < rd_n rd ->
+  exists b, nth_error (rd_p rd) (Z.to_nat i) = Some b /\ txt_space regs (off + i) = Some b.
+Proof. exact txt_readat_space. Qed.
+Print Assumptions C11_txt_readat_space.
+
+(** A read across a gap never returns success with len(p) bytes: a short count
+    AND an error. *)
+Theorem C11_txt_readat_gap : forall regs p off rd, TxtApart regs ->
+  txt_readat regs p off = Ok rd ->
+  (exists i, 0 <= i < zlen p /\ txt_space regs (off + i) = None) ->
+  rd_n rd < zlen p /\ rd_err rd <> 0.
+Proof. exact txt_readat_gap. Qed.
+Print Assumptions C11_txt_readat_gap.
+
+(** A run of present registers without gaps is readable in ONE ReadAt, whatever
+    else the collection holds and in whatever order: exactly their values, back
+    to back, without error. *)
+Theorem C11_txt_readat_run : forall regs run p off, TxtWF regs ->
+  (forall r, In r run -> In r regs) -> run <> [] -> chained off run -> zlen p = sum_tw run ->
+  txt_readat regs p off = Ok (mkRd (zlen p) (concat (map g_val run)) 0).
+Proof. exact txt_readat_run. Qed.
+Print Assumptions C11_txt_readat_run.
+
 (** Every present register is readable at its address, whatever its neighbours
-    (a register may start exactly where another one ends): a buffer of exactly
-    its width receives exactly its value, without error. *)
+    and whatever its BitSize(): a buffer of exactly its width receives exactly
+    its value, without error. *)
 Theorem C11_txt_readat_register : forall regs r, TxtWF regs -> In r regs ->
-  txt_readat regs (repeat 0 (Z.to_nat (g_bits r / 8))) (g_off r)
-  = Ok (mkRd (g_bits r / 8) (g_val r) 0).
+  txt_readat regs (repeat 0 (Z.to_nat (txt_width r))) (g_off r) = Ok (mkRd (txt_width r) (g_val r) 0).
 Proof. exact txt_readat_register_exact. Qed.
 Print Assumptions C11_txt_readat_register.
 
-(** ... and a buffer of any length receives the first min(len p, width) bytes
-    (io.ErrShortWrite when the buffer is shorter, io.EOF when it is empty). *)
-Theorem C11_txt_readat_register_any_buffer : forall regs r p, TxtWF regs -> In r regs ->
+(** ... and a buffer that is not longer than the register receives its first
+    len(p) bytes (io.ErrShortWrite when shorter, io.EOF when empty). *)
+Theorem C11_txt_readat_register_short_buffer : forall regs r p, TxtWF regs -> In r regs ->
+  zlen p <= txt_width r ->
   txt_readat regs p (g_off r) = Ok (let '(p', n, e) := bwrite p 0 (g_val r) in mkRd n p' e).
 Proof. exact txt_readat_register. Qed.
-Print Assumptions C11_txt_readat_register_any_buffer.
+Print Assumptions C11_txt_readat_register_short_buffer.
+
+(** A reference whose one range covers a run of present registers without gaps
+    (what Reference.RawBytes makes of adjacent ranges) has their bytes, back to back. *)
+Theorem C11_txt_reference_run : forall regs run off, TxtWF regs ->
+  (forall r, In r run -> In r regs) -> run <> [] -> chained off run ->
+  0 <= off -> off + sum_tw run < 9223372036854775808 ->
+  rawbytes_g (txt_readat regs) txt_size MNil [mkR off (sum_tw run)] = Ok (concat (map g_val run)).
+Proof. exact txt_reference_run. Qed.
+Print Assumptions C11_txt_reference_run.
+
+(** ONE reference naming two present registers that are neighbours in the
+    register space -- two ranges, in either order, for any neighbours -- has the
+    bytes of the lower one followed by those of the upper one (former finding
+    C11-TXTPublic-neighbouring-registers-one-reference, repaired by /repo 9b9036f;
+    the theorem replaces the former closed counterexample). *)
+Theorem C11_txt_reference_neighbours : forall regs r1 r2, TxtWF regs -> In r1 regs -> In r2 regs ->
+  g_off r2 = g_off r1 + txt_width r1 -> g_off r2 + txt_width r2 < 9223372036854775808 ->
+  rawbytes_g (txt_readat regs) txt_size MNil [mkR (g_off r1) (txt_width r1); mkR (g_off r2) (txt_width r2)]
+    = Ok (g_val r1 ++ g_val r2) /\
+  rawbytes_g (txt_readat regs) txt_size MNil [mkR (g_off r2) (txt_width r2); mkR (g_off r1) (txt_width r1)]
+    = Ok (g_val r1 ++ g_val r2).
+Proof. exact txt_reference_neighbours. Qed.
+Print Assumptions C11_txt_reference_neighbours.
 
 (** A reference to exactly one present register has the bytes of that register. *)
 Theorem C11_txt_reference_one_register : forall regs r, TxtWF regs -> In r regs ->
-  g_off r + g_bits r / 8 < 9223372036854775808 ->
-  rawbytes_g (txt_readat regs) txt_size MNil [mkR (g_off r) (g_bits r / 8)] = Ok (g_val r).
+  g_off r + txt_width r < 9223372036854775808 ->
+  rawbytes_g (txt_readat regs) txt_size MNil [mkR (g_off r) (txt_width r)] = Ok (g_val r).
 Proof. exact txt_reference_one_register. Qed.
 Print Assumptions C11_txt_reference_one_register.
 
+(** A present register whose BitSize() says 0 -- the 256-bit TXT.PUBLIC.KEY,
+    BitSize() = uint8(256) -- is readable like every other one: ReadAt delivers
+    its value and a reference to its range has its bytes (former finding
+    C11-TXTPublic-public-key-unreadable, repaired by /repo 9b9036f). *)
+Theorem C11_txt_wide_register_readable : forall regs off key, TxtWF regs -> In (mkReg off 0 key) regs ->
+  off + zlen key < 9223372036854775808 ->
+  txt_readat regs (repeat 0 (Z.to_nat (zlen key))) off = Ok (mkRd (zlen key) key 0) /\
+  rawbytes_g (txt_readat regs) txt_size MNil [mkR off (zlen key)] = Ok key.
+Proof.
+  intros regs off key W I B. split.
+  - exact (txt_readat_register_exact regs (mkReg off 0 key) W I).
+  - exact (txt_reference_one_register regs (mkReg off 0 key) W I B).
+Qed.
+Print Assumptions C11_txt_wide_register_readable.
+
 (** If a reference to a TXT register file has bytes, they are -- merged range by
-    merged range, through the address space -- prefixes of the values of the
-    registers that start at the resolved offsets. *)
-Theorem C11_txt_bytes_sound : forall regs m rs bs, Forall okr rs ->
+    merged range, through the address space -- the bytes the sparse register
+    space holds at the resolved offsets. *)
+Theorem C11_txt_bytes_sound : forall regs m rs bs, TxtApart regs -> Forall okr rs ->
   rawbytes_g (txt_readat regs) txt_size m rs = Ok bs ->
   bs = flat_map (fun mr => txt_full regs (to_i64 (roff mr)) (rlen mr))
                 (flat_map (mapped1 txt_size m) (ranges_sm rs)).
@@ -607,63 +675,40 @@ Proof. exact amd_bytes_sound. Qed.
 Print Assumptions C11_amd_bytes_sound.
 
 (** The hypotheses are satisfiable: TXT.STS | TXT.ESTS (neighbours), ACM_STATUS |
-    TXT.DPR (neighbours), ACM_POLICY_STATUS; MP0_C2P_MSG_37 | MP0_C2P_MSG_38. *)
+    TXT.DPR (neighbours), ACM_POLICY_STATUS, TXT.PUBLIC.KEY (BitSize() = 0), in
+    no particular order; MP0_C2P_MSG_37 | MP0_C2P_MSG_38. *)
 Definition xSTS := mkReg 0 64 [8; 7; 6; 5; 4; 3; 2; 1].
 Definition xESTS := mkReg 8 8 [90].
 Definition xACMSTS := mkReg 808 64 [190; 186; 254; 202; 0; 0; 0; 0].
 Definition xDPR := mkReg 816 32 [170; 187; 204; 221].
 Definition xACMPOL := mkReg 888 64 [136; 119; 102; 85; 68; 51; 34; 17].
-Definition xTxt : list reg := [xSTS; xESTS; xACMSTS; xDPR; xACMPOL].
+Definition xKEY := mkReg 1024 0 (map (fun i => 160 + i) (seqZ 0 32)).
+Definition xTxt : list reg := [xDPR; xSTS; xKEY; xESTS; xACMSTS; xACMPOL].
 Definition xAmd : list reg := [mkReg 0 32 [4; 3; 2; 1]; mkReg 0 32 [56; 56; 56; 56]].
 
 Example C11_ex_txt_wf : TxtWF xTxt.
 Proof.
   split.
-  - unfold xTxt. repeat (apply Forall_cons; [unfold reg_wf; cbn; lia|]). apply Forall_nil.
-  - unfold xTxt. repeat (apply FOP_cons; [repeat (apply Forall_cons; [unfold regs_apart; cbn; lia|]); apply Forall_nil|]).
+  - unfold xTxt. repeat (apply Forall_cons; [unfold reg_wf, txt_width; cbn; lia|]). apply Forall_nil.
+  - unfold TxtApart, xTxt. repeat (apply FOP_cons; [repeat (apply Forall_cons; [unfold regs_apart, txt_width; cbn; lia|]); apply Forall_nil|]).
     apply FOP_nil.
 Qed.
 
+Example C11_ex_txt_run : chained 808 [xACMSTS; xDPR] /\ sum_tw [xACMSTS; xDPR] = 12 /\
+  txt_readat xTxt (repeat 0 12) 808 = Ok (mkRd 12 [190; 186; 254; 202; 0; 0; 0; 0; 170; 187; 204; 221] 0) /\
+  txt_readat xTxt (repeat 0 13) 808 = Ok (mkRd 12 ([190; 186; 254; 202; 0; 0; 0; 0; 170; 187; 204; 221] ++ [0]) 2).
+Proof. split; [cbn; auto|]. split; [reflexivity|]. split; vm_compute; reflexivity. Qed.
+
 Example C11_ex_mixed_list :
-  grefs_rawbytes [ mkGRef (GRegs 1 0 (RTxt xTxt)) MNil [mkR 8 1];
-                   mkGRef (GRegs 1 0 (RTxt xTxt)) MNil [mkR 0 8];
+  grefs_rawbytes [ mkGRef (GRegs 1 0 (RTxt xTxt)) MNil [mkR 8 1; mkR 0 8];
                    mkGRef (GBytes xImg) MPhys [mkR 4294967290 4];
+                   mkGRef (GRegs 1 0 (RTxt xTxt)) MNil [mkR 1024 32; mkR 888 8];
                    mkGRef (GRegs 2 1 (RAmd xAmd)) MNil [mkR 4 4; mkR 0 4];
                    mkGRef (GBytes xRaw) MNil [mkR 1 3] ]
-  = Ok ([90] ++ [8; 7; 6; 5; 4; 3; 2; 1] ++ [12; 13; 14; 15] ++ [4; 3; 2; 1; 56; 56; 56; 56] ++ [31; 32; 33]).
+  = Ok ([8; 7; 6; 5; 4; 3; 2; 1; 90] ++ [12; 13; 14; 15]
+        ++ [136; 119; 102; 85; 68; 51; 34; 17] ++ map (fun i => 160 + i) (seqZ 0 32)
+        ++ [4; 3; 2; 1; 56; 56; 56; 56] ++ [31; 32; 33]).
 Proof. vm_compute. reflexivity. Qed.
 
 Example C11_ex_amd_wf : Forall amd_wf xAmd /\ sum_width xAmd = 8.
 Proof. split; [|reflexivity]. repeat (apply Forall_cons; [unfold amd_wf; cbn; lia|]). apply Forall_nil. Qed.
-
-(** REFUTED (finding C11-TXTPublic-neighbouring-registers-one-reference): two
-    present registers that are neighbours in the register space -- each readable,
-    each referable on its own -- have no bytes when ONE reference names both:
-    Reference.RawBytes merges the adjacent ranges and TXTPublic.ReadAt serves one
-    register per call. *)
-Theorem C11_txt_neighbours_one_reference_refuted : exists regs r1 r2,
-  TxtWF regs /\ In r1 regs /\ In r2 regs /\ g_off r2 = g_off r1 + g_bits r1 / 8 /\
-  rawbytes_g (txt_readat regs) txt_size MNil [mkR (g_off r1) (g_bits r1 / 8)] = Ok (g_val r1) /\
-  rawbytes_g (txt_readat regs) txt_size MNil [mkR (g_off r2) (g_bits r2 / 8)] = Ok (g_val r2) /\
-  rawbytes_g (txt_readat regs) txt_size MNil
-    [mkR (g_off r1) (g_bits r1 / 8); mkR (g_off r2) (g_bits r2 / 8)] = Panic.
-Proof.
-  exists xTxt, xSTS, xESTS. split; [exact C11_ex_txt_wf|].
-  split; [left; reflexivity|]. split; [right; left; reflexivity|].
-  split; [reflexivity|]. split; [vm_compute; reflexivity|]. split; vm_compute; reflexivity.
-Qed.
-Print Assumptions C11_txt_neighbours_one_reference_refuted.
-
-(** REFUTED (finding C11-TXTPublic-public-key-unreadable): the hypothesis
-    "BitSize()/8 is the width of the value" of [TxtWF] cannot be dropped -- a
-    present 256-bit register whose BitSize() is uint8(256) = 0 is not found at
-    its own address. *)
-Theorem C11_txt_wide_register_unreadable_refuted : exists regs r p,
-  In r regs /\ 0 <= g_off r /\ 0 < zlen (g_val r) /\ zlen p = zlen (g_val r) /\
-  txt_readat regs p (g_off r) = Ok (mkRd 0 p 2).
-Proof.
-  exists [xSTS; mkReg 1024 0 (repeat 7 32)], (mkReg 1024 0 (repeat 7 32)), (repeat 0 32).
-  split; [right; left; reflexivity|]. split; [cbn; lia|]. split; [vm_compute; reflexivity|].
-  split; vm_compute; reflexivity.
-Qed.
-Print Assumptions C11_txt_wide_register_unreadable_refuted.
